@@ -220,10 +220,14 @@ Definition c02_ok (c : scase) : bool :=
       end
   end.
 
-(* known finding F38: the progressive decider has no depth bound, creation may recurse without end *)
+(* known finding F38 (what is left of it): with a terminating production switched off by weight 0 the progressive decider may recurse without end *)
 Definition f38_region (c : scase) : bool :=
   match c with
-  | KSynth d DProg s start o => match so_res o with PErr OutOfFuel => true | _ => false end
+  | KSynth d DProg s start o =>
+      match so_res o with
+      | PErr OutOfFuel => existsb (fun cl => match c_weight cl with Some q => Qeq_bool q 0 | None => false end) (d_classes d)
+      | _ => false
+      end
   | _ => false
   end.
 
